@@ -190,6 +190,27 @@ def case_hand_vs_ad(which, rep):
             Pf, Af = full.gradient([Fv, None])[0], full.hessian([Fv, None])[0]
             compare(run, "NeoHooke(mu,bulk)~NeoHooke(mu)&Volumetric(bulk)", "stress", parts.gradient([Fv, None])[0], Pf, maxabs(Af), 1e-12, "hand:composite:stress")
             compare(run, "NeoHooke(mu,bulk)~NeoHooke(mu)&Volumetric(bulk)", "elasticity", parts.hessian([Fv, None])[0], Af, maxabs(Af), 1e-12, "hand:composite:elasticity")
+            # (fourth audit) Volumetric is a subclass of NeoHooke: both sides of the pair above run the same lines for the bulk part, and no
+            # automatic-differentiation sibling has one.  The law in one piece and the bulk-only law against the documented energy
+            # mu / 2 (J^(-2/3) tr C - 3) + K (J - 1)^2 / 2 differentiated by hand (numpy), and against the same energy written here and
+            # differentiated by tensortrax - at the volume-changing states, where the pressure terms of the tangent do not vanish
+            from tensortrax.math import sqrt as tsqrt, trace as ttrace
+            from tensortrax.math.linalg import det as tdet
+
+            def W_bulk(C, mu, bulk):
+                J = tsqrt(tdet(C))
+                return mu / 2 * (J ** (-2 / 3) * ttrace(C) - 3) + bulk * (J - 1) ** 2 / 2
+            Pd, Ad = neo_hooke_bulk_closed_form(Fv, mu, bulk)
+            compare(run, "NeoHooke(mu,bulk)~definition", "stress", Pf, Pd, maxabs(Ad), 1e-12, "hand:bulk:definition:stress",
+                    sample={"pair": "NeoHooke(mu,bulk)~definition", "mu": mu, "bulk": bulk})
+            compare(run, "NeoHooke(mu,bulk)~definition", "elasticity", Af, Ad, maxabs(Ad), 1e-12, "hand:bulk:definition:elasticity")
+            ad = fem.Hyperelastic(W_bulk, mu=mu, bulk=bulk)
+            compare(run, "NeoHooke(mu,bulk)~tt.Hyperelastic(own energy with bulk)", "stress", Pf, ad.gradient([Fv, None])[0], maxabs(Ad), 1e-12, "hand:bulk:ad:stress")
+            compare(run, "NeoHooke(mu,bulk)~tt.Hyperelastic(own energy with bulk)", "elasticity", Af, ad.hessian([Fv, None])[0], maxabs(Ad), 1e-12, "hand:bulk:ad:elasticity")
+            vol = fem.Volumetric(bulk=bulk)
+            Pv, Av = neo_hooke_bulk_closed_form(Fv, 0.0, bulk)
+            compare(run, "Volumetric(bulk)~definition", "stress", vol.gradient([Fv, None])[0], Pv, maxabs(Av), 1e-12, "hand:volumetric:definition")
+            compare(run, "Volumetric(bulk)~definition", "elasticity", vol.hessian([Fv, None])[0], Av, maxabs(Av), 1e-12, "hand:volumetric:definition")
         elif which == "NeoHookeCompressible":
             reg = {m.name: m for m in C03.registry()}
             E = mu * (3 * lm + 2 * mu) / (lm + mu)
@@ -311,6 +332,69 @@ def svk_dWdl(mu, lmbda, k):
         e = np.log(l) if k == 0 else (l ** k - 1) / k
         return (2 * mu * e + lmbda * np.sum(e)) * l ** (k - 1)
     return dWdl
+
+
+def neo_hooke_bulk_closed_form(F, mu, bulk):
+    """Nearly-incompressible Neo-Hooke law from its documented energy psi = mu / 2 (J^(-2/3) tr C - 3) + K (J - 1)^2 / 2, differentiated by
+    hand and written with numpy (point by point): P = mu J^(-2/3) (F - tr C / 3 F^-T) + K (J - 1) J F^-T,
+    dP_iJ / dF_kL = mu J^(-2/3) (d_ik d_JL - 2/3 (F_iJ G_kL + G_iJ F_kL) + 2/9 tr C G_iJ G_kL + tr C / 3 G_iL G_kJ) + K J (2 J - 1) G_iJ G_kL
+    - K (J - 1) J G_iL G_kJ with G = F^-T."""
+    P, A = np.zeros(F.shape), np.zeros((3, 3, 3, 3) + F.shape[2:])
+    I = np.eye(3)
+    for idx in np.ndindex(*F.shape[2:]):
+        f = F[(slice(None), slice(None), *idx)]
+        J, G, trC = np.linalg.det(f), np.linalg.inv(f).T, np.sum(f * f)
+        GG, GxG = np.einsum("ij,kl->ijkl", G, G), np.einsum("il,kj->ijkl", G, G)
+        P[(slice(None), slice(None), *idx)] = mu * J ** (-2 / 3) * (f - trC / 3 * G) + bulk * (J - 1) * J * G
+        A[(slice(None),) * 4 + idx] = (mu * J ** (-2 / 3) * (np.einsum("ik,jl->ijkl", I, I) - 2 / 3 * (np.einsum("ij,kl->ijkl", f, G) + np.einsum("ij,kl->ijkl", G, f))
+                                                          + 2 / 9 * trC * GG + trC / 3 * GxG) + bulk * J * (2 * J - 1) * GG - bulk * (J - 1) * J * GxG)
+    return P, A
+
+
+def langevin_derivatives(mu, N):
+    """f'(1), f''(1) of the documented Langevin chain energy f = mu N (x L + ln(L / sinh L)), x = stretch / sqrt(N), with the documented Pade
+    approximation L = x (3 - x^2) / (1 - x^2) of the inverse Langevin function (derivatives taken by hand)."""
+    x = 1 / np.sqrt(N)
+    L, L1, L2 = x * (3 - x ** 2) / (1 - x ** 2), (3 + x ** 4) / (1 - x ** 2) ** 2, (4 * x ** 3 + 12 * x) / (1 - x ** 2) ** 3
+    g1 = L + x * L1 + L1 / L - L1 / np.tanh(L)
+    g2 = 2 * L1 + x * L2 + L2 / L - L1 ** 2 / L ** 2 + L1 ** 2 / np.sinh(L) ** 2 - L2 / np.tanh(L)
+    return mu * np.sqrt(N) * g1, mu * g2
+
+
+def microsphere_mu0(framework, f1, f2, e=None):
+    """Initial shear modulus of the micro-sphere frameworks with a chain energy f (f1 = f'(1), f2 = f''(1)) from the exact averages over
+    the unit sphere <r_i r_j> = d_ij / 3, <r_i r_j r_k r_l> = (d_ij d_kl + d_ik d_jl + d_il d_jk) / 15 (no quadrature rule): with the isochoric
+    stretch diag(e^t, e^-t, 1) the energy is 2 mu0 t^2 + O(t^3); affine: <f(lb)>, non-affine stretch: f(<lb^p>^(1/p)), tube: f(<nu^q>)."""
+    if framework in ("affine_stretch", "affine_tube"):
+        return (4 * f1 + f2) / 15
+    return f1 * (e + 3) / 15 if framework == "nonaffine_stretch" else f1 * e * (e + 3) / 15
+
+
+# chain energies of the check's own (the caller may hand any function of the stretch to the frameworks)
+def chain_power(stretch, c, n):
+    return c * (stretch ** n - 1) / n  # f'(1) = c, f''(1) = c (n - 1)
+
+
+def chain_even(stretch, a):
+    return a[0] * stretch ** 2 + a[1] * stretch ** 4 + a[2] * stretch ** 6
+
+
+def microsphere_exact(C, framework, a, c, n, e):
+    """Energy of the four frameworks where the average over the unit sphere is known in closed form: even powers of the stretch are
+    polynomials in r, <r.B.r> = tr B / 3, <(r.B.r)^2> = (tr^2 B + 2 tr B^2) / 15, <(r.B.r)^3> = (tr^3 B + 6 tr B tr B^2 + 8 tr B^3) / 105 with
+    B the unimodular C (stretch) resp. its inverse (area stretch); degree <= 6, integrated exactly by the documented degree-9 rule.
+    affine_*: chain_even; nonaffine_stretch (p = e) / nonaffine_tube (q = e), e in (2, 4, 6): chain_power of the averaged stretch."""
+    from tensortrax.math import trace
+    from tensortrax.math.linalg import det, inv
+    B = det(C) ** (-1 / 3) * C
+    if framework.endswith("tube"):
+        B = inv(B)
+    B2 = B @ B
+    t1, t2, t3 = trace(B), trace(B2), trace(B2 @ B)
+    m = [t1 / 3, (t1 ** 2 + 2 * t2) / 15, (t1 ** 3 + 6 * t1 * t2 + 8 * t3) / 105]
+    if framework.startswith("affine"):
+        return a[0] * m[0] + a[1] * m[1] + a[2] * m[2]
+    return chain_power(m[e // 2 - 1] ** (1 / e) if framework == "nonaffine_stretch" else m[e // 2 - 1], c, n)
 
 
 def case_linear(rep, flavour=None):
@@ -782,6 +866,72 @@ def case_microsphere_statevars(rep):
     return fn
 
 
+MS_TOL = 2e-10  # the sphere rule is tabulated with 12 digits: measured 2.0e-12 of the tangent at F = I (seeds 0-7), whatever the parameters
+
+
+def case_microsphere_definition(rep):
+    """(fourth audit) Every micro-sphere pair integrates with the same sphere rule on both sides (the jax and the tensortrax frameworks
+    import one BazantOh object): points and weights cancel in the pairs, and the registry has no documented modulus for these models.
+    References that use no quadrature rule: (a) the tangent at the undeformed state is the isotropic tangent with the closed-form initial
+    shear modulus of the caller's chain law (exact fourth moments of the unit sphere) and no bulk stiffness - frameworks with the two chain
+    laws of the library and one of the check, and miehe_goektepe_lulei of both backends; (b) at finite strain, chain laws for which the
+    average over the sphere is a polynomial in the invariants of the unimodular C (even powers up to 6, inside the documented degree 9)."""
+    def fn(run):
+        import felupe.constitution.jax as JX
+        import felupe.constitution.tensortrax as TT
+        tm_ = TT.models.hyperelastic.microsphere
+        rng = rng_for(run.seed, "C12", "microsphere-definition", rep)
+        U = lambda a, b: float(rng.uniform(a, b))
+        I = np.eye(3).reshape(3, 3, 1, 1).copy()
+        mon = "material.moduli"
+
+        def tangent(name, um, mu0, unit, params):
+            A = np.asarray(um.hessian([I, None])[0], float)[..., 0, 0]
+            P = np.asarray(um.gradient([I, None])[0], float)[..., 0, 0]
+            s = max(4 * abs(mu0) / 3, 1e-300)  # (largest entry of the expected tangent: the scale comes from the caller's parameters)
+            run.compare(mon, "model=%s clause=initial-tangent" % name, maxabs(A - iso_tensor(-2 * mu0 / 3, mu0)) / s, MS_TOL,
+                        "%s: tangent at F = I is not the isotropic tangent with the closed-form shear modulus %.6g (exact sphere averages) and no bulk stiffness; "
+                        "found shear modulus %.6g" % (name, mu0, (A[0, 1, 0, 1] + A[0, 2, 0, 2] + A[1, 2, 1, 2]) / 3), unit=unit, config=(name, "initial-tangent"),
+                        sample={"model": name, "params": params, "mu0": float(mu0)})
+            run.compare(mon, "model=%s clause=stress-free" % name, maxabs(P) / s, MS_TOL, "%s: stress at F = I" % name, unit=unit)
+        # (a) initial tangent
+        mu, N, c, n = U(0.5, 2), U(5, 20), U(0.5, 2), U(1.5, 4)
+        p, q = U(1.2, 3), U(0.1, 1.5)
+        chains = (("langevin", tm_.langevin, dict(mu=mu, N=N), langevin_derivatives(mu, N)), ("linear", tm_.linear, dict(mu=mu), (mu, 0.0)),
+                  ("own power law", chain_power, dict(c=c, n=n), (c, c * (n - 1))))
+        for chain, f, kw, (f1, f2) in chains:
+            for framework, extra in (("affine_stretch", {}), ("affine_tube", {}), ("nonaffine_stretch", dict(p=p)), ("nonaffine_tube", dict(q=q))):
+                um = TT.Hyperelastic(getattr(tm_, framework), f=f, kwargs=kw, **extra)
+                mu0 = microsphere_mu0(framework, f1, f2, *extra.values())
+                tangent("tt.microsphere.%s(%s)" % (framework, chain), um, mu0, "microsphere:moduli:%s(%s)" % (framework, chain), dict(kw, **extra))
+        # miehe_goektepe_lulei = nonaffine_stretch(p, langevin(mu, N)) + nonaffine_tube(q, linear(mu N U)), as documented in the source
+        pm = dict(mu=U(0.1, 0.5), N=U(10, 30), U=U(5, 15), p=U(1.2, 2), q=U(0.1, 0.5))
+        mu0 = (microsphere_mu0("nonaffine_stretch", langevin_derivatives(pm["mu"], pm["N"])[0], None, pm["p"])
+               + microsphere_mu0("nonaffine_tube", pm["mu"] * pm["N"] * pm["U"], None, pm["q"]))
+        for lab, B in (("tt", TT), ("jax", JX)):
+            tangent("%s.miehe_goektepe_lulei" % lab, B.Hyperelastic(B.models.hyperelastic.miehe_goektepe_lulei, **pm), mu0,
+                    "microsphere:moduli:%s.miehe_goektepe_lulei" % lab, pm)
+        # (b) finite strain: stress and elasticity against the closed-form energy written here (differentiated by tensortrax); measured
+        # 8.6e-13 / 3.5e-12 of the tangent (seeds 0-7)
+        batch = (2, 3) if rep % 2 == 0 else (1, 5)
+        F = batch_F(rng, batch, lo=0.75, hi=1.4)
+        a = [U(0.2, 1.5), 0.3 * U(0.2, 1.5), 0.1 * U(0.2, 1.5)]
+        for framework in MICROSPHERE:
+            for e in ((2,) if framework.startswith("affine") else (2, 4, 6)):
+                if framework.startswith("affine"):
+                    um = TT.Hyperelastic(getattr(tm_, framework), f=chain_even, kwargs=dict(a=a))
+                    lab, unit = "%s(own even chain)" % framework, "microsphere:exact:%s" % framework
+                else:
+                    um = TT.Hyperelastic(getattr(tm_, framework), f=chain_power, kwargs=dict(c=c, n=n), **{"p" if framework == "nonaffine_stretch" else "q": float(e)})
+                    lab, unit = "%s(%s=%d,own power law)" % (framework, "p" if framework == "nonaffine_stretch" else "q", e), "microsphere:exact:%s:%d" % (framework, e)
+                ref = TT.Hyperelastic(microsphere_exact, framework=framework, a=a, c=c, n=n, e=e)
+                A = um.hessian([F, None])[0]
+                pair = "tt.microsphere.%s~exact sphere average" % lab
+                compare(run, pair, "stress", um.gradient([F, None])[0], ref.gradient([F, None])[0], maxabs(A), 1e-10, unit, sample={"pair": pair, "a": a, "c": c, "n": n})
+                compare(run, pair, "elasticity", A, ref.hessian([F, None])[0], maxabs(A), 5e-10, unit)
+    return fn
+
+
 def case_representative_directions(rep):
     """MORPH by representative directions is offered twice inside the tensortrax backend: as an energy (hyperelastic., through
     affine_stretch_statevars and real_to_dual) and as a stress (lagrange., through affine_force_statevars).  With the same
@@ -876,6 +1026,12 @@ def case_meanings(rep):
                 Pn, An = evaluate(fam, one[fam][nm])
                 compare(run, nm, "stress[linear in the stiffness parameters]", Ps, s_ * np.asarray(Pn), sA * s_, 1e-12, "meanings:units:" + fam)
                 compare(run, nm, "elasticity[linear in the stiffness parameters]", As, s_ * np.asarray(An), sA * s_, 1e-12, "meanings:units:" + fam)
+        # (fourth audit) both members of the composite family share the code of the bulk part: the law in one piece against its
+        # definition written with numpy, in the scaled unit system as well
+        Ps, As = evaluate("composite", scaled["composite"]["NeoHooke(mu,bulk)"])
+        Pd, Ad = neo_hooke_bulk_closed_form(Fv, s_ * mu, s_ * bulk)
+        compare(run, "NeoHooke(mu,bulk)~definition", "stress[scaled units]", Ps, Pd, maxabs(Ad), 1e-12, "meanings:units:bulk:definition")
+        compare(run, "NeoHooke(mu,bulk)~definition", "elasticity[scaled units]", As, Ad, maxabs(Ad), 1e-12, "meanings:units:bulk:definition")
     return fn
 
 
@@ -922,6 +1078,9 @@ def cases(tier, seed):
         out.append(("meanings:%d" % rep, case_meanings(rep)))
     for rep in range(n4):
         out.append(("representative-directions:%d" % rep, case_representative_directions(rep)))
+    # fourth audit, appended so that the cases above keep their shards
+    for rep in range(1 if tier == "quick" else 3):
+        out.append(("microsphere:definition:%d" % rep, case_microsphere_definition(rep)))
     return out
 
 
@@ -967,6 +1126,11 @@ def _required():
     req += ["tt.hyperelastic~tt.lagrange:morph_representative_directions:%s" % c for c in ("stress", "elasticity", "statevars")]
     req += ["meanings:lmbda=None", "meanings:r:OgdenRoxburgh(NeoHooke)", "meanings:r:tt.ogden_roxburgh(neo_hooke)", "meanings:units:NeoHooke", "meanings:units:composite",
             "meanings:units:NeoHookeCompressible", "meanings:units:OgdenRoxburgh"]
+    # fourth audit (reached by the index schedule of the quick tier, whatever the seed)
+    req += ["hand:bulk:definition:stress", "hand:bulk:definition:elasticity", "hand:bulk:ad:stress", "hand:bulk:ad:elasticity", "hand:volumetric:definition",
+            "meanings:units:bulk:definition", "microsphere:moduli:tt.miehe_goektepe_lulei", "microsphere:moduli:jax.miehe_goektepe_lulei"]
+    req += ["microsphere:moduli:%s(%s)" % (fw, ch) for fw in MICROSPHERE for ch in ("langevin", "linear", "own power law")]
+    req += ["microsphere:exact:%s" % fw for fw in MICROSPHERE[:2]] + ["microsphere:exact:%s:%d" % (fw, e) for fw in MICROSPHERE[2:] for e in (2, 4, 6)]
     return req
 
 
@@ -982,7 +1146,10 @@ SPEC = {
              "definition in principal axes (1-3 terms); state variables through jax Hyperelastic / total_lagrange / updated_lagrange of both "
              "backends and the flags jit, jacobian, parallel; the jax micro-sphere frameworks vs their tensortrax namesakes; the two tensortrax "
              "MORPH-by-representative-directions; scaled unit systems; recorded findings keep their keys, their finiteness and size are judged "
-             "under keys of their own"),
+             "under keys of their own.  Fourth audit: the bulk part of the hand-coded NeoHooke (shared with its subclass Volumetric) vs the "
+             "documented energy differentiated by hand and by tensortrax at volume-changing states; micro-sphere frameworks (one sphere rule "
+             "on both sides of every pair) vs the exact averages over the unit sphere: closed-form initial shear modulus of the chain law, and "
+             "finite-strain energies that are polynomials in the invariants of the unimodular C"),
     "assumptions": ["jax storakers / extended_tube perturb C by diag(0,+-1e-4,-+1e-4): the tensortrax model function is evaluated on the "
                     "identically perturbed C (tolerance 1e-6) and the raw difference is bounded by 20 x 1e-4 x |A|",
                     "recorded findings (lagrange.morph elasticity, orthotropic SVK k != 2 in rotated axes): size bounds 0.5 / 0.75 of the tensor "
